@@ -1909,6 +1909,16 @@ def run(chk):
     ]
     grid = list(numeric_grid(chk.thorough))
     positive_number_mechanism(chk, drv, grid, "positive_number:grid", vs)
+    # the same code on bounds beyond the range in which binary floating point holds every integer (int64 limits, 2**53 + 1):
+    # integer arithmetic is exact whatever the magnitude, the boundary values must be as valid there as next to zero
+    big = []
+    for b in (2**53 + 1, 2**63 - 1, 10**18 + 7):
+        for mo in (2, 3, 10):
+            for sgn in (1, -1):
+                big += [{"type": "integer", "minimum": sgn * b, "multipleOf": mo}, {"type": "integer", "maximum": sgn * b, "multipleOf": mo},
+                        {"type": "integer", "minimum": sgn * b - 40, "maximum": sgn * b, "multipleOf": mo},
+                        {"type": "integer", "exclusiveMinimum": sgn * b, "multipleOf": mo}]
+    positive_number_mechanism(chk, drv, big, "positive_number:large-magnitude", vs)
     tm.lap("positive_number:grid")
     chk.notes.append(f"positive_number:grid is exhaustive over {len(grid)} schemas")
     # cover_schema_iter: exhaustive small-scope grids per keyword family (sliced in the quick tier) + random schemas
